@@ -397,6 +397,11 @@ class _JoinRun:
         return eval_len_test(t, lens)
 
     def desc(self, e: ast.AST) -> str:
+        if isinstance(e, ast.IfExp):
+            # an argument chosen by a flag / length test that the abstract state decides
+            c = self.test(e.test)
+            if c is not None:
+                return self.desc(e.body if c else e.orelse)
         if isinstance(e, ast.Name):
             d = self.lists.get(e.id)
             if d is not None:
